@@ -95,6 +95,8 @@ class RW(FieldAction):
         super().__init__(shape, access="rw", members={
             "data": Out(shape),
         })
+        if isinstance(shape, range) and init not in shape:
+            raise ValueError(f"Initial value {init!r} is not within the field shape {shape!r}")
         self._storage = Signal(shape, init=init)
         self._init    = init
 
@@ -146,6 +148,8 @@ class RW1C(FieldAction):
             "data": Out(shape),
             "set":  In(shape),
         })
+        if isinstance(shape, range) and init not in shape:
+            raise ValueError(f"Initial value {init!r} is not within the field shape {shape!r}")
         self._storage = Signal(shape, init=init)
         self._init    = init
 
@@ -201,6 +205,8 @@ class RW1S(FieldAction):
             "clear": In(shape),
             "data":  Out(shape),
         })
+        if isinstance(shape, range) and init not in shape:
+            raise ValueError(f"Initial value {init!r} is not within the field shape {shape!r}")
         self._storage = Signal(shape, init=init)
         self._init    = init
 
